@@ -139,6 +139,12 @@ func seedFingerprint() string {
 	return fmt.Sprintf("%08x%08x", h1, h2)
 }
 
+// NORES: what an order-exposing program passes to ob() when an operation had no result
+// (None itself is a legal set element and dict key)
+var c03NoRes = starlark.NewBuiltin("NORES", func(*starlark.Thread, *starlark.Builtin, starlark.Tuple, []starlark.Tuple) (starlark.Value, error) {
+	return starlark.None, nil
+})
+
 func c03State0(th *starlark.Thread) *c03State { return th.Local("c03").(*c03Holder).st }
 
 func newC03Env(hdr c03Header) (*c03Env, error) {
@@ -182,6 +188,7 @@ func newC03Env(hdr c03Header) (*c03Env, error) {
 		"module":    starlark.NewBuiltin("module", starlarkstruct.MakeModule),
 		"trace":     starlark.NewBuiltin("trace", c03Trace),
 		"ob":        starlark.NewBuiltin("ob", c03Probe),
+		"NORES":     c03NoRes,
 		"SHARED_D":  sd,
 		"SHARED_S":  ss,
 		"SHARED_L":  shl,
@@ -248,7 +255,7 @@ func smallInt(v starlark.Value) int {
 
 // ob(n, x, mode, res, lmode, listing): probe of the order-exposing family.
 // x is the dict/set just operated on; mode says how to decode res:
-// "" none, "v" value, "k" key, "kv" (key, value) pair; None always decodes to [].
+// "" none, "v" value, "k" key, "kv" (key, value) pair; the sentinel NORES decodes to [].
 // listing is an in-language enumeration of x: keys (lmode "k") or (key, value) pairs (lmode "kv").
 func c03Probe(th *starlark.Thread, b *starlark.Builtin, args starlark.Tuple, kwargs []starlark.Tuple) (starlark.Value, error) {
 	st := c03State0(th)
@@ -276,7 +283,7 @@ func c03Probe(th *starlark.Thread, b *starlark.Builtin, args starlark.Tuple, kwa
 		return nil, fmt.Errorf("ob: got %s", x.Type())
 	}
 	o.S = byteArr(x.String())
-	if res != starlark.None {
+	if res != starlark.Value(c03NoRes) {
 		switch mode {
 		case "v":
 			o.R = []int{smallInt(res)}
